@@ -2,12 +2,14 @@
 import itertools
 
 LETTERS = ['a', 'b', 'c', 'é', 'я', '1']
+# alphabets with white space (a password may contain and end with it): the n-gram is the last field of an OMEN line
+SPACE_POOLS = [[' ', 'a', 'b', 'c'], ['a', '\u3000', 'b', ' '], ['a', 'b', ' ', '\xa0']]
 
 
 def gen_omen(rng, ngram=None, nletters=None, maxlen_extra=None, levels=None, density=None, allow_unstartable=False):
     n = ngram or rng.choice([2, 2, 3, 3, 4, 5])
     k = nletters or rng.randint(2, 3 if n >= 4 else 4)
-    alphabet = LETTERS[:k]
+    alphabet = LETTERS[:k] if rng.random() < 0.75 else rng.choice(SPACE_POOLS)[:k]
     levels = levels or rng.choice([[0, 1, 2], [0, 1, 2, 3], [0, 1, 3, 10], [0, 2, 5, 10], [1, 2], [0]])
     density = density if density is not None else rng.choice([1.0, 0.9, 0.7, 0.5])
     ip, cp, ep = [], [], []
